@@ -137,7 +137,9 @@ func c16Register(env world.Env, who, full string, years int64) mc.CaseResult {
 	if state == "live-other" {
 		vs = append(vs, viol("live-name-only-by-owner", "takeover", "%s registered %q while it was live and owned by %s (expires %d, height %d)", who, norm, w.NameOf(prev.Value), prev.Expires, height))
 	}
-	if found && state != "boundary-own" && state != "boundary-other" {
+	if found {
+		// whether anyone but the owner may register at height == Expires is unspecified, but whoever registers
+		// successfully - also there - has paid for a full term counted from the current height
 		if state == "live-own" {
 			if now.Expires != prev.Expires+years*c16YearBlocks {
 				vs = append(vs, viol("renewal-extends-by-exactly-the-term", "renewal", "renewal x%d at height %d: expiry %d -> %d, expected %d", years, height, prev.Expires, now.Expires, prev.Expires+years*c16YearBlocks))
@@ -215,6 +217,6 @@ func init() {
 	Props["C16"] = Prop{Level: "exploration", Run: func(r *mc.Run, tier string) {
 		r.Rules = append(r.Rules, "full product: names of length 1..6 x {jkl,ibc} x case/space variants x years {1,2,5} x registrant {A,B,under-funded P}; every genesis-seeded name (expired long ago / a year ago / expiring in 3 blocks / live) x block offset 0..4 x {owner, other} x years; register-twice sequences. Non-trivial = accepted registrations; distinct by outcome class (accepted|rejected / fresh|live|boundary|expired x own|other)")
 		r.Assumptions = append(r.Assumptions, "yearly price table frozen in the harness (10M ujkl jkl, 50M ibc; x24,12,6,3,1 by length)", "height == Expires unspecified", "chain starts at height 12,000,000 so that multi-year expiries lie in the past")
-		r.AddEnum(c16Enum(tier == "thorough"), workers(), time.Time{})
+		r.AddEnum(c16Enum(true), workers(), time.Time{})
 	}}
 }
